@@ -56,8 +56,44 @@ func goGobNorm(kind string, data []byte) interface{} {
 	return orderedMap{{"ok", json.RawMessage(b)}}
 }
 
+// gobExtraDocs: the three states of a security requirement list the property names - absent, empty, non-empty (with and
+// without scopes) - on an operation, on the document, and on an operation inside the document.  (The empty list is not a
+// normal-form value of C01, so the codec generators do not produce it.)
+func gobExtraDocs() []cdoc {
+	var out []cdoc
+	op := func(sec string) string {
+		m := `"responses":{"200":{"description":"d"}}`
+		if sec != "" {
+			m = `"security":` + sec + `,` + m
+		}
+		return `{` + m + `}`
+	}
+	secs := []string{"", `[]`, `[{}]`, `[{"k":[]}]`, `[{"k":["s"]},{}]`}
+	for _, s := range secs {
+		out = append(out, cdoc{kind: "Operation", doc: mustJV(op(s)), phase: 2, tags: []string{"gob-extra", "security-state"}})
+		for _, t := range secs {
+			top := ""
+			if t != "" {
+				top = `"security":` + t + `,`
+			}
+			out = append(out, cdoc{kind: "Swagger", doc: mustJV(`{"swagger":"2.0","info":{"title":"t","version":"1"},` + top + `"paths":{"/a":{"get":` + op(s) + `,"post":` + op(t) + `}}}`),
+				phase: 2, tags: []string{"gob-extra", "security-state"}})
+		}
+	}
+	return out
+}
+
+func isGobExtra(d cdoc) bool {
+	for _, t := range d.tags {
+		if t == "gob-extra" {
+			return true
+		}
+	}
+	return false
+}
+
 func genGobCases(r *rng, n int, tier string, cw *caseWriter) {
-	for _, d := range codecDocs(r, n, tier) {
+	for _, d := range append(gobExtraDocs(), codecDocs(r, n, tier)...) {
 		if !gobKinds[d.kind] || (d.phase == 3 && !isRefSpelling(d)) {
 			continue
 		}
@@ -131,8 +167,8 @@ func checkC14(in codecInput) []cfinding {
 
 func oracleC14(r *rng, n int, tier string) *oracleResult {
 	t := newTally("C14")
-	for _, d := range codecDocs(r, n, tier) {
-		if !gobKinds[d.kind] || ((d.phase == 3 || !d.nf) && !isRefSpelling(d)) {
+	for _, d := range append(gobExtraDocs(), codecDocs(r, n, tier)...) {
+		if !gobKinds[d.kind] || ((d.phase == 3 || !d.nf) && !isRefSpelling(d) && !isGobExtra(d)) {
 			continue
 		}
 		in := docInput(d)
